@@ -124,7 +124,16 @@ func drawDev(c *simkit.Choice, units int) (*reftls.Dev, int, string) {
 		d.Val = []int{0, 1, 65537, 0xffffff, 70000}[c.Choose(5, simkit.LFault)]
 		why = "handshake length field rewritten"
 	case reftls.DevInsertRecord:
-		switch c.Choose(8, simkit.LFault) {
+		switch c.Choose(11, simkit.LFault) {
+		case 8:
+			d.Typ, d.RecBody = reftls.RecApp, []byte{}
+			why = "empty application-data record during the handshake"
+		case 9:
+			d.Typ, d.RecBody = reftls.RecCCS, []byte{}
+			why = "empty ChangeCipherSpec record"
+		case 10:
+			d.Typ, d.RecBody = reftls.RecAlert, []byte{}
+			why = "empty alert record"
 		case 6:
 			d.Typ, d.RecBody = reftls.RecHandshake, reftls.Handshake(reftls.HsHelloRequest, nil)
 			why = "extra HelloRequest inserted"
